@@ -205,6 +205,9 @@ class CheckFailed(Exception):
     pass
 
 
+_MISSING = object()
+
+
 class Ctx:
     """the scenario's window to the engine; same interface in symbolic and native mode"""
     _pysym_holder = True
@@ -382,8 +385,8 @@ class Ctx:
     def patch(self, owner, name, repl):
         """replace owner.name by repl for this scenario run: as an interpreter stub in symbolic mode
         (the attribute itself is left alone), by setattr (restored by the runner) in native mode"""
-        orig = getattr(owner, name)
-        if self.mode == 'sym':
+        orig = getattr(owner, name, _MISSING)      # _MISSING: a module global shadowing a builtin is created
+        if self.mode == 'sym' and orig is not _MISSING:
             try:
                 self.I.stubs[orig] = repl
             except TypeError:
@@ -391,6 +394,21 @@ class Ctx:
         # also patch for real, so that code reached natively (concrete arguments) sees the stub too
         self._patched.append((owner, name, orig))
         setattr(owner, name, repl)
+
+    def cleanup_one(self, owner, name):
+        """undo the latest patch of owner.name now (the rest of the scenario sees the original)"""
+        for i in range(len(self._patched) - 1, -1, -1):
+            o, n, orig = self._patched[i]
+            if o is owner and n == name:
+                cur = getattr(owner, name)
+                if orig is _MISSING:
+                    delattr(owner, name)
+                else:
+                    setattr(owner, name, orig)
+                    if self.mode == 'sym':
+                        self.I.stubs.pop(orig, None)
+                del self._patched[i]
+                return cur
 
     def force(self, *funcs):
         """always interpret these functions (they read symbolic data from stubs, not from arguments)"""
@@ -402,7 +420,10 @@ class Ctx:
 
     def cleanup(self):
         for owner, name, orig in reversed(getattr(self, '_patched', [])):
-            setattr(owner, name, orig)
+            if orig is _MISSING:
+                delattr(owner, name)
+            else:
+                setattr(owner, name, orig)
         self._patched = []
 
     def observe(self, v, label=''):
